@@ -112,6 +112,7 @@ def resolve(p, v):
 
 
 def run(ctx):
+    r7_byte_ranges_inclusive(ctx)
     ref = json.load(open(os.path.join(HERE, "tables", "annex_d.json")))
     facts = ctx.facts
     enc_fn = ctx.fn(M + "TextEncoding::encode", "anchor")
@@ -341,3 +342,31 @@ def run(ctx):
             ctx.violation("R5", key, "the %s arm of TextEncoding::%s denotes no Annex D table (body: `%s`): bytes pass through as "
                           "UTF-8, so codes 0x80..0xFF and the Standard/PDFDoc specials are not mapped as specified"
                           % (enc, what, src), "%s:%d" % (outer["file"], arm["line"] if arm else outer["line"]))
+
+
+def r7_byte_ranges_inclusive(ctx):
+    facts = ctx.facts
+    n = 0
+    for k, fn in sorted(facts.fns.items()):
+        if not (k.startswith("parser::encoding::") or k.startswith("text::encoding::")):
+            continue
+        owner = fn.parent or fn.id
+        for b, blk in enumerate(fn.blocks):
+            for st in blk[0]:
+                rv = st[2]
+                if rv[0] == "agg" and rv[1][0] == "adt" and rv[1][1] == "std::ops::Range" and len(rv[2]) == 2 \
+                        and all(o[0] == "k" and o[1] == "u8" for o in rv[2]):
+                    n += 1
+                    key = "u8-range:%s:%s..%s" % (L.short(owner), rv[2][0][2], rv[2][1][2])
+                    if rv[2][1][2] == 255:
+                        ctx.violation("R7", key, "%s iterates the exclusive byte range %d..255: byte 0xFF is never visited, so the table it "
+                                      "fills has no entry for `ÿ` (U+00FF) and that byte decodes to U+FFFD (lenient) or an error (strict)"
+                                      % (L.short(owner), rv[2][0][2]), fn.where(b))
+                    else:
+                        ctx.ok("R7", key, "exclusive range not ending at 0xFF", fn.where(b))
+            t = blk[1]
+            if t[0] == "call" and isinstance(t[1], dict) and (t[1].get("p") or "").startswith("std::ops::RangeInclusive") and \
+                    len(t[2]) == 2 and all(o[0] == "k" and o[1] == "u8" for o in t[2]):
+                n += 1
+                ctx.ok("R7", "u8-range:%s:%s..=%s" % (L.short(owner), t[2][0][2], t[2][1][2]), "inclusive byte range", fn.where(b))
+    ctx.floor("R7", "u8 ranges filling encoding tables", n, 1)
